@@ -48,6 +48,7 @@ func NewInterpreter() *Interpreter {
 	globals.Define("রাউন্ড", NativeRoundFn{})
 
 	globals.Define("ইনপুট", NativeInputFn{})
+	globals.Define("input", NativeInputFn{}) // reserved by the parser alongside ইনপুট
 
 	// Then, create the Interpreter instance with the global environment
 	i := &Interpreter{
